@@ -421,7 +421,7 @@ def check_property(pid, tier, seed):
                     jobs.append((h.get("binary", "kdrive"), h.get("stream", P["streams"][0]["name"]), 0, 0, os.path.join(corpus_dir, f)))
     for st in P["streams"]:
         n = st["quick"] if tier == "quick" else st["thorough"]
-        nseeds = 1 if tier == "quick" else st.get("seeds", 8)
+        nseeds = st.get("quick_seeds", 1) if tier == "quick" else st.get("seeds", 8)
         for k in range(nseeds):
             jobs.append((st.get("binary", "kdrive"), st["name"], seed + 1000003 * k, n, None))
     with ThreadPoolExecutor(max_workers=min(16, max(1, len(jobs)))) as ex:
@@ -443,8 +443,8 @@ def check_property(pid, tier, seed):
         mon_hits = mon(pid, r)      # list of (index, detail) on the implementation's own observations
         if not hard and not mon_hits and not r.error:
             continue
-        if r.error and not hard and not mon_hits:
-            crashed = "harness exit" in r.error and re.search(r"panic:|fatal error:|SIGSEGV|nil pointer|goroutine \d+ \[running\]", r.error)
+        crashed = bool(r.error) and "harness exit" in r.error and re.search(r"panic:|fatal error:|SIGSEGV|nil pointer|goroutine \d+ \[running\]", r.error)
+        if r.error and ((not hard and not mon_hits) or (pid == "C19" and crashed)):
             if pid == "C19" and crashed:
                 # the real code killed the process: that is the failing input of C19 (the history is regenerated from stream/seed/n)
                 hdr = {"property": pid, "stream": stream, "binary": binary, "seed": r.seed, "n": r.n, "regen": "1", "kind": "crash",
